@@ -27,7 +27,10 @@ def q(tier, quick, thorough):
 def recipe(c: Check):
     c.build(["Properties/C12.vo", "Corr/C12.vo"], harness=["c12"], units=["c12sync"])
     c.obligations("C12")
-    st = c.run_driver("sessions", q(c.tier, 140, 1200), shards=q(c.tier, 8, 16), timeout=1500)
+    st = c.run_driver("sessions", q(c.tier, 128, 1200), shards=q(c.tier, 8, 16), timeout=1500)
+    stc = c.run_driver("clientrelogin", q(c.tier, 1, 4), shards=1, timeout=600)
+    if stc and not c.broken and c.cov.get("coq_counters", {}).get("clientrelogin", {}).get("NREFUSED", 0) <= 0:
+        c.broken.append(dict(kind="coverage", name="driver clientrelogin never saw a refused login", detail=""))
     c.run_driver("runids", q(c.tier, 1500, 10000), coq=False, timeout=600)
     cnt = c.cov.get("coq_counters", {}).get("sessions", {})
     if st and not c.broken:
@@ -49,7 +52,7 @@ def recipe(c: Check):
              "then S repeats the close / disconnects / is replaced; tcp and stcp; maxPortsPerClient 0 and 3; T must keep the name, keep working, "
              "and U's registration must be refused). Random histories run with maxPortsPerClient 0 or 1..3 (the model carries the quota). After every step the run-id table, the name table with owners, the set of "
              "listening remote ports and the messages delivered to the peers are compared with Model.CtlMgr (Corr.C12.check_case). "
-             "distinct = distinct case text; non-trivial = more than one step. runids driver: fresh logins, run id 16 hex and pairwise distinct.",
+             "clientrelogin driver: a real frpc behind a relay that cuts the client side of the control connection (frps keeps the old session) and refuses 1-2 logins; the run id carried by every Login is compared with Model.ClientLogin, and the proxy must be running again after the accepted re-login. Proxy names are arbitrary byte strings (trailing/leading blanks colliding after trimming, case, non-ASCII, control characters). distinct = distinct case text; non-trivial = more than one step. runids driver: fresh logins, run id 16 hex and pairwise distinct.",
         assumptions=["util.RandID is an oracle: theorems about a fresh login assume its value is not in the session table; the harness tests 16 hex + pairwise distinct",
                      "pxy.Run(), config validation and Go map iteration order are oracles (action arguments); the theorems quantify over them",
                      "the model's atomic steps are the code between two lock/channel operations; gates sit at those boundaries (design/C12.md lists them)"])
